@@ -177,7 +177,10 @@ impl<T: Copy> ReadStream<T> {
 
     #[must_use]
     pub fn wait_for_read(&self, need: usize) -> bool {
-        self.circ.wait_for_read(need) < need && Arc::strong_count(&self.circ) == 1
+        // Check for a closed writer *before* looking at the amount of data.
+        // The other order could miss data committed just before the close.
+        let closed = Arc::strong_count(&self.circ) == 1;
+        self.circ.wait_for_read(need) < need && closed
     }
 
     /// Return true if there is nothing more ever to read from the stream.
@@ -254,7 +257,10 @@ impl<T: Copy> WriteStream<T> {
 
     #[must_use]
     pub fn wait_for_write(&self, need: usize) -> bool {
-        self.circ.wait_for_write(need) < need && Arc::strong_count(&self.circ) == 1
+        // Check for a closed reader *before* looking at the free space.
+        // The other order could miss space freed just before the close.
+        let closed = Arc::strong_count(&self.circ) == 1;
+        self.circ.wait_for_write(need) < need && closed
     }
 
     #[must_use]
@@ -365,10 +371,13 @@ impl<T> NCReadStream<T> {
     pub fn eof(&self) -> bool {
         #[cfg(rustradio_verif)]
         crate::verif::emit(format!("\"ev\":\"call\",\"op\":\"nc_eof\",\"m\":{}", self.q.0.id()));
+        // Check for a closed writer *before* checking for emptiness. The
+        // other order could miss a packet pushed just before the close.
+        let closed = Arc::strong_count(&self.q) == 1;
         if !self.q.0.lock().unwrap().is_empty() {
             false
         } else {
-            Arc::strong_count(&self.q) == 1
+            closed
         }
     }
 }
